@@ -454,7 +454,13 @@ int lzxd_decompress(struct lzxd_stream *lzx, off_t out_bytes) {
 
     /* calculate size of frame: all frames are 32k except the final frame
      * which is 32kb or less. this can only be calculated when lzx->length
-     * has been filled in. */
+     * has been filled in. In a cabinet that happens inside the read
+     * callback, when cabd_sys_read() fetches the folder's last data block:
+     * if nothing of this frame has been read yet, read now, so the frame
+     * size is not decided before the block the frame lives in is known. */
+    if (!lzx->length && bits_left == 0) {
+      READ_IF_NEEDED;
+    }
     frame_size = LZX_FRAME_SIZE;
     if (lzx->length && (lzx->length - lzx->offset) < (off_t)frame_size) {
       frame_size = lzx->length - lzx->offset;
